@@ -333,7 +333,7 @@ def main():
              "serves_properties": [p for p, c in CHECKS.items() if c["engine"] == "E1"]},
             {"name": "E2", "path": "units/", "kind_free_text": "CrossHair symbolic execution of real helper functions/classes",
              "serves_properties": [p for p, c in CHECKS.items() if c["engine"] == "E2"]},
-            {"name": "E3", "path": "astsmt/", "kind_free_text": "own LIA/relation-table encodings regenerated from the real code, decided by z3",
+            {"name": "E3", "path": "vlib/tables.py", "kind_free_text": "own LIA/relation-table encodings regenerated from the real code, decided by z3",
              "serves_properties": [p for p, c in CHECKS.items() if c["engine"] == "E3"]},
         ],
         "checks": checks,
